@@ -1115,7 +1115,21 @@ static void run_resample(Json& js, vh::Rng& rng, long budget, int pqmax) {
             x[i] = probe(i);
         }
         arr_real y;
-        const char* o = vh::outcome([&] { y = resample(x, p * mul, q * mul); });
+        // pure interpolation: every third case passes its own linear-phase prototype, a Hann-windowed sinc with m taps per
+        // branch (m odd or even, length an exact multiple of L), instead of the library-designed one
+        int custom = 0;
+        arr_real hc;
+        if (qr == 1 && pr >= 2 && pr <= 16 && rng.range(0, 2) == 0) {
+            custom = (int)rng.range(5, 12);
+            const int nt = custom * pr;
+            hc = arr_real(nt);
+            for (int i = 0; i < nt; ++i) {
+                const double u = (i - (nt - 1) / 2.0) / pr;
+                const double sc = (std::fabs(u) < 1e-12) ? 1.0 : std::sin(M_PI * u) / (M_PI * u);
+                hc[i] = sc * (0.5 - 0.5 * std::cos(2 * M_PI * (i + 1) / (nt + 1)));
+            }
+        }
+        const char* o = vh::outcome([&] { y = custom ? resample(x, p * mul, q * mul, hc) : resample(x, p * mul, q * mul); });
         bool same = (y.size() == x.size());
         bool finite = true;
         for (int i = 0; i < y.size(); ++i) {
@@ -1144,7 +1158,7 @@ static void run_resample(Json& js, vh::Rng& rng, long budget, int pqmax) {
             (void)err0;
         }
         js.begin("Resample").num("p", p * mul).num("q", q * mul).num("len", len).str("o", o).num("outlen", y.size())
-          .boolean("same", same).boolean("finite", finite).boolean("probe", useprobe).num("shift", shift).end();
+          .boolean("same", same).boolean("finite", finite).boolean("probe", useprobe).num("shift", shift).num("custom", custom).end();
         // size helpers
         const int size = (int)rng.range(0, 5000);
         js.begin("Sizes").num("L", p).num("M", q).num("size", size).num("next", IResampler::next_size(size, p, q))
